@@ -118,6 +118,9 @@ func (r *Runner) Fabricate(g *rng.R, flavor string) *Submission {
 	if v2 && !r.v2ok() || !v2 && flavor != "builder" && !r.v1ok() {
 		return nil
 	}
+	if flavor == "builder" && !r.v1ok() && !r.v2ok() {
+		return nil
+	}
 	free := r.freeInputs(tip)
 	pick := func() (types.SiacoinElement, bool) {
 		if len(free) == 0 {
@@ -376,6 +379,38 @@ func (r *Runner) Fabricate(g *rng.R, flavor string) *Submission {
 		}
 		se.MerkleProof[g.Intn(len(se.MerkleProof))][0] ^= 1
 		t.SiacoinInputs[0].Parent.StateElement = se
+	case "form-v1-require":
+		// a v1 contract whose proof window ends exactly at the v2 require height
+		req := r.W.Env.Net.HardforkV2.RequireHeight
+		if tip.Height+3 > req {
+			return nil
+		}
+		e, ok := pick()
+		if !ok {
+			return nil
+		}
+		ws := req - 1
+		if ws <= tip.Height {
+			ws = tip.Height + 1
+		}
+		if ws >= req {
+			return nil
+		}
+		t := r.W.Env.V1Form(tip.FullState, e.ID, e.SiacoinOutput.Value, ws, req, byte(g.Intn(250)))
+		add1(t, Meta{SignedAt: tip.Height, POK: true})
+	case "exact-fill-v2":
+		// input-less arbitrary-data transactions whose weights sum exactly to the block limit
+		max := tip.FullState.MaxBlockWeight()
+		mk := func(weight uint64, salt byte) types.V2Transaction {
+			t := types.V2Transaction{ArbitraryData: make([]byte, weight)}
+			t.ArbitraryData[0], t.ArbitraryData[1] = salt, byte(g.Intn(250))
+			return t
+		}
+		slack := uint64(g.Intn(30)) // 0..11 overflows a block that carries MineBlock's own transaction uncounted
+		s.V2 = true
+		add2(mk(900000, 1), Meta{POK: true})
+		add2(mk(900000, 2), Meta{POK: true})
+		add2(mk(max-1800000-slack, 3), Meta{POK: true})
 	default:
 		return nil
 	}
@@ -383,30 +418,46 @@ func (r *Runner) Fabricate(g *rng.R, flavor string) *Submission {
 	// generator's own state of that block)
 	if s.V2 {
 		if bn, ok := r.W.T.ByID[s.Basis.ID]; ok && bn.ChainValid() {
+			els := r.StoredElements(bn).FullState.Elements
 			for i := range s.V2s {
-				s.Metas[i].POK = bn.FullState.Elements.ValidateTransactionElements(s.V2s[i]) == nil
+				s.Metas[i].POK = els.ValidateTransactionElements(s.V2s[i]) == nil
 			}
 		}
 	}
 	return s
 }
 
-// Fill builds n large fee-paying transactions (distinct fee rates) over free inputs.
-func (r *Runner) Fill(g *rng.R, v2 bool, n int, size int) *Submission {
+// Fill builds chains of large fee-paying transactions (distinct fee rates): each
+// free input starts a chain of `depth` transactions, each spending the change of
+// the previous one. One submission per chain.
+func (r *Runner) Fill(g *rng.R, v2 bool, chains, depth, size int) []*Submission {
 	tip := r.Tip
-	s := &Submission{Flavor: "fill", V2: v2, Basis: r.W.Info(tip).Index}
+	if v2 && !r.v2ok() || !v2 && !r.v1ok() {
+		return nil
+	}
 	free := r.freeInputs(tip)
 	e := r.W.Env
-	for i := 0; i < n && i < len(free); i++ {
-		f := types.Siacoins(uint32(1 + i + g.Intn(1000)*100))
-		if v2 {
-			t := e.V2Spend(tip.FullState, free[i], f, types.ZeroCurrency, e.Addr, size, byte(i))
-			s.V2s = append(s.V2s, t)
-		} else {
-			t := e.V1Spend(tip.FullState, free[i].ID, free[i].SiacoinOutput.Value, f, types.ZeroCurrency, e.Addr, size, byte(i))
-			s.V1 = append(s.V1, t)
+	var out []*Submission
+	k := 0
+	for c := 0; c < chains && c < len(free); c++ {
+		s := &Submission{Flavor: "fill", V2: v2, Basis: r.W.Info(tip).Index}
+		in := free[c]
+		id, val := in.ID, in.SiacoinOutput.Value
+		for d := 0; d < depth; d++ {
+			k++
+			f := types.Siacoins(uint32(k*3 + g.Intn(3)))
+			if v2 {
+				t := e.V2Spend(tip.FullState, in, f, types.ZeroCurrency, e.Addr, size, byte(k))
+				s.V2s = append(s.V2s, t)
+				in = t.EphemeralSiacoinOutput(0)
+			} else {
+				t := e.V1Spend(tip.FullState, id, val, f, types.ZeroCurrency, e.Addr, size, byte(k))
+				s.V1 = append(s.V1, t)
+				id, val = t.SiacoinOutputID(0), t.SiacoinOutputs[0].Value
+			}
+			s.Metas = append(s.Metas, Meta{SignedAt: tip.Height, POK: true})
 		}
-		s.Metas = append(s.Metas, Meta{SignedAt: tip.Height, POK: true})
+		out = append(out, s)
 	}
-	return s
+	return out
 }
